@@ -49,6 +49,8 @@ unsafe extern "C" {
     fn tsrun_array_len(arr: *const TsRunValue) -> usize;
     fn tsrun_array_get(ctx: *mut TsRunContext, arr: *mut TsRunValue, index: usize) -> TsRunValueResult;
     fn tsrun_array_push(ctx: *mut TsRunContext, arr: *mut TsRunValue, val: *mut TsRunValue) -> TsRunResult;
+    fn tsrun_array_set(ctx: *mut TsRunContext, arr: *mut TsRunValue, index: usize, val: *mut TsRunValue) -> TsRunResult;
+    fn tsrun_create_pending_order(ctx: *mut TsRunContext, payload: *mut TsRunValue, order_id_out: *mut u64) -> TsRunValueResult;
     fn tsrun_call(ctx: *mut TsRunContext, func: *mut TsRunValue, this_arg: *mut TsRunValue, args: *mut *mut TsRunValue, argc: usize) -> TsRunValueResult;
     fn tsrun_set_global(ctx: *mut TsRunContext, name: *const c_char, val: *mut TsRunValue) -> TsRunResult;
     fn tsrun_native_function(ctx: *mut TsRunContext, name: *const c_char, func: NativeFn, arity: usize, userdata: *mut c_void) -> TsRunValueResult;
@@ -165,9 +167,9 @@ fn json_eq(a: &serde_json::Value, b: &serde_json::Value) -> bool {
 }
 
 thread_local! { static VARIANT: std::cell::Cell<u32> = const { std::cell::Cell::new(0) }; }
-const VARIANTS: [&str; 8] = ["new-number", "new-object", "dup-arg", "null", "error", "reenter-get", "reenter-call", "return-arg"];
+const VARIANTS: [&str; 10] = ["new-number", "new-object", "dup-arg", "null", "error", "reenter-get", "reenter-call", "return-arg", "return-this", "make-order"];
 
-extern "C" fn native_cb(ctx: *mut TsRunContext, _this: *mut TsRunValue, args: *mut *mut TsRunValue, argc: usize, _ud: *mut c_void, error_out: *mut *const c_char) -> *mut TsRunValue {
+extern "C" fn native_cb(ctx: *mut TsRunContext, this: *mut TsRunValue, args: *mut *mut TsRunValue, argc: usize, _ud: *mut c_void, error_out: *mut *const c_char) -> *mut TsRunValue {
     unsafe {
         let a0 = if argc > 0 { *args } else { std::ptr::null_mut() };
         let a1 = if argc > 1 { *args.add(1) } else { std::ptr::null_mut() };
@@ -185,6 +187,18 @@ extern "C" fn native_cb(ctx: *mut TsRunContext, _this: *mut TsRunValue, args: *m
                 tsrun_value_free(f.value);
                 r.value
             }
+            "return-this" => this,      // fluent style: hands its `this` handle back
+            "make-order" => {
+                // the pattern of examples/c-embedding/async_orders.c: build the payload, create the order, release the payload handle
+                let o = tsrun_object_new(ctx).value;
+                let t = tsrun_string(ctx, c"fetch".as_ptr());
+                tsrun_set(ctx, o, c"type".as_ptr(), t);
+                tsrun_set(ctx, o, c"n".as_ptr(), a0);
+                let mut id = 0u64;
+                let p = tsrun_create_pending_order(ctx, o, &mut id);
+                tsrun_value_free(t); tsrun_value_free(o);
+                p.value
+            }
             _ => a0,        // "return-arg": hands one of its argument handles back
         }
     }
@@ -201,15 +215,17 @@ fn native_expect(variant: &str) -> serde_json::Value {
         "error" => leaf("str", "caught"),
         "reenter-get" => leaf("num", "1"),
         "reenter-call" => leaf("num", "8"),
+        "return-this" => json!({"k": "obj", "a": "", "ks": ["m", "q"], "vs": [leaf("fn", ""), leaf("num", "5")]}),
         _ => leaf("num", "7"),
     }
 }
 
 const ORDER_SRC: &str = "import { order } from \"tsrun:host\";\nlet out: any;\ntry { out = await order(\"p\"); } catch (e) { out = \"caught\"; }\nout;\n";
-const NATIVE_SRC: &str = "let r: any;\ntry { r = nat(7, { a: 1, f: function (x: number) { return x + 1; } }); } catch (e) { r = \"caught\"; }\nr;\n";
+const NATIVE_SRC: &str = "let r: any;\nconst holder: any = { m: nat, q: 5 };\ntry { r = holder.m(7, { a: 1, f: function (x: number) { return x + 1; } }); } catch (e) { r = \"caught\"; }\nr;\n";
+const NATIVE_ORDER_SRC: &str = "let out: any;\ntry { out = await nat(7); } catch (e) { out = \"caught\"; }\nout;\n";
 const READ_SRC: &str = "(typeof g === \"undefined\") ? undefined : g;\n";
 
-struct World { ctx: HashMap<u64, *mut TsRunContext>, val: HashMap<u64, *mut TsRunValue>, order: HashMap<u64, u64>, nat: HashMap<u64, bool>, calls: u64 }
+struct World { ctx: HashMap<u64, *mut TsRunContext>, val: HashMap<u64, *mut TsRunValue>, order: HashMap<u64, u64>, nat: HashMap<u64, bool>, payload: HashMap<u64, *mut TsRunValue>, calls: u64 }
 
 unsafe fn run_to(ctx: *mut TsRunContext) -> TsRunStepResult {
     let mut sr = std::mem::MaybeUninit::<TsRunStepResult>::uninit();
@@ -236,7 +252,7 @@ unsafe fn exec(w: &mut World, e: &serde_json::Value, diffs: &mut Vec<String>) {
     unsafe {
         match op {
             "new" => { let p = tsrun_new(); if p.is_null() { diffs.push("tsrun_new returned NULL".into()); } tsrun_verif_set_gc_threshold(p, 100); w.ctx.insert(c, p); }
-            "freectx" => { tsrun_free(ctx); w.ctx.remove(&c); w.order.remove(&c); w.nat.remove(&c); }
+            "freectx" => { tsrun_free(ctx); w.ctx.remove(&c); w.order.remove(&c); w.nat.remove(&c); w.payload.remove(&c); }
             "prim" => {
                 let a = e["a"].as_str().unwrap_or("");
                 let p = match e["k"].as_str().unwrap_or("") {
@@ -282,6 +298,8 @@ unsafe fn exec(w: &mut World, e: &serde_json::Value, diffs: &mut Vec<String>) {
                     _ => tsrun_set(std::ptr::null_mut(), hv, c"a".as_ptr(), hv),
                 };
                 check_err(r.ok, r.error, "error", "tsrun_set with a NULL argument", diffs);
+                let rp = tsrun_array_push(ctx, hv, std::ptr::null_mut()); check_err(rp.ok, rp.error, "error", "tsrun_array_push with a NULL value", diffs);
+                let rs = tsrun_array_set(ctx, hv, 0, std::ptr::null_mut()); check_err(rs.ok, rs.error, "error", "tsrun_array_set with a NULL value", diffs);
                 let r2 = tsrun_get(ctx, std::ptr::null_mut(), c"a".as_ptr());
                 if !r2.value.is_null() || r2.error.is_null() { diffs.push("tsrun_get(NULL object) did not fail".into()); }
                 let _ = tsrun_has(ctx, std::ptr::null_mut(), c"a".as_ptr());
@@ -320,10 +338,17 @@ unsafe fn exec(w: &mut World, e: &serde_json::Value, diffs: &mut Vec<String>) {
             "collect" => tsrun_verif_collect(ctx),
             "churn" => { for i in 0..40 { let o = tsrun_object_new(ctx).value; let n = tsrun_number(ctx, 900.0 + i as f64); tsrun_set(ctx, o, c"junk".as_ptr(), n); tsrun_value_free(n); tsrun_value_free(o); } tsrun_verif_collect(ctx); for i in 0..40 { let a = tsrun_array_new(ctx).value; let n = tsrun_number(ctx, 700.0 + i as f64); tsrun_array_push(ctx, a, n); tsrun_value_free(n); tsrun_value_free(a); } }
             "setglobal" => { let r = tsrun_set_global(ctx, c"g".as_ptr(), hv); check_err(r.ok, r.error, "ok", "tsrun_set_global", diffs); }
-            "script-read" | "native" | "order-start" | "resume" => {
+            "read-payload" => {
+                if let Some(p) = w.payload.get(&c).copied() {
+                    let t = read_tree(ctx, p, 2, diffs);
+                    let want = serde_json::json!({"k": "obj", "a": "", "ks": ["type", "n"], "vs": [{"k": "str", "a": "fetch", "ks": [], "vs": []}, {"k": "num", "a": "7", "ks": [], "vs": []}]});
+                    if !same_tree(&want, &t) { diffs.push(format!("the payload of the pending order reads {t}, the callback built {want}")); }
+                }
+            }
+            "script-read" | "native" | "native-order" | "order-start" | "resume" => {
                 if op != "resume" {
-                    if op == "native" {
-                        let variant = e["variant"].as_str().unwrap_or("");
+                    if op == "native" || op == "native-order" {
+                        let variant = if op == "native-order" { "make-order" } else { e["variant"].as_str().unwrap_or("") };
                         VARIANT.with(|v| v.set(VARIANTS.iter().position(|x| *x == variant).unwrap_or(0) as u32));
                         if !w.nat.contains_key(&c) {
                             let f = tsrun_native_function(ctx, c"nat".as_ptr(), native_cb, 2, std::ptr::null_mut());
@@ -331,15 +356,20 @@ unsafe fn exec(w: &mut World, e: &serde_json::Value, diffs: &mut Vec<String>) {
                             tsrun_set_global(ctx, c"nat".as_ptr(), f.value); tsrun_value_free(f.value); w.nat.insert(c, true);
                         }
                     }
-                    let (src, path) = match op { "script-read" => (READ_SRC, None), "native" => (NATIVE_SRC, None), _ => (ORDER_SRC, Some("/main.ts")) };
+                    let (src, path) = match op { "script-read" => (READ_SRC, None), "native" => (NATIVE_SRC, None), "native-order" => (NATIVE_ORDER_SRC, Some("/main.ts")), _ => (ORDER_SRC, Some("/main.ts")) };
                     let code = cs(src); let p = path.map(cs);
                     let r = tsrun_prepare(ctx, code.as_ptr(), p.as_ref().map(|x| x.as_ptr()).unwrap_or(std::ptr::null()));
                     if !r.ok { let m = read_c(r.error, "error", diffs); diffs.push(format!("{op}: tsrun_prepare failed: {:?}", m)); return; }
                 }
                 let mut sr = run_to(ctx);
-                if op == "order-start" {
-                    if sr.status != TsRunStepStatus::Suspended || sr.pending_count != 1 { diffs.push(format!("{op}: status {:?} with {} pending orders, expected Suspended with 1", sr.status, sr.pending_count)); }
-                    else { let o = &*sr.pending_orders; w.order.insert(c, o.id); let t = read_tree(ctx, o.payload, 1, diffs); if t["a"] != "p" { diffs.push(format!("order payload {t}")); } }
+                if op == "order-start" || op == "native-order" {
+                    if sr.status != TsRunStepStatus::Suspended || sr.pending_count != 1 { let m = read_c(sr.error, "error", diffs); diffs.push(format!("{op}: status {:?} ({:?}) with {} pending orders, expected Suspended with 1", sr.status, m, sr.pending_count)); }
+                    else {
+                        let o = &*sr.pending_orders; w.order.insert(c, o.id);
+                        let t = read_tree(ctx, o.payload, 2, diffs);
+                        if op == "order-start" { if t["a"] != "p" { diffs.push(format!("order payload {t}")); } }
+                        else { w.payload.insert(c, o.payload); if t["k"] != "obj" || t["ks"].as_array().map(|a| a.len()) != Some(2) { diffs.push(format!("payload of the native order reads {t}")); } }
+                    }
                 } else if sr.status != TsRunStepStatus::Complete {
                     let m = read_c(sr.error, "error", diffs); diffs.push(format!("{op}: status {:?} ({:?}), expected Complete", sr.status, m));
                 } else {
@@ -370,7 +400,7 @@ pub fn main(_args: &[String]) -> i32 {
         if line.trim().is_empty() { continue; }
         let Ok(j) = serde_json::from_str::<serde_json::Value>(&line) else { eprintln!("bad job"); return 2; };
         let hist = j["hist"].as_array().cloned().unwrap_or_default();
-        let mut w = World { ctx: HashMap::new(), val: HashMap::new(), order: HashMap::new(), nat: HashMap::new(), calls: 0 };
+        let mut w = World { ctx: HashMap::new(), val: HashMap::new(), order: HashMap::new(), nat: HashMap::new(), payload: HashMap::new(), calls: 0 };
         let mut diffs: Vec<String> = Vec::new();
         let mut at = 0usize;
         let r = std::panic::catch_unwind(std::panic::AssertUnwindSafe(|| {
